@@ -27,6 +27,7 @@ RULE = (
     "= at least two leaves."
 )
 REQUIRED = {
+    "mon:filter.a-case's-own-filter_by_ids-is-used": 100,
     "mon:iterate.every-leaf-once-in-order": 1000,
     "mon:filter.exactly-the-chosen-in-order": 1000,
     "mon:filter.grouping-preserved": 1000,
